@@ -848,6 +848,11 @@ pub fn inputs_c17(r: &mut Rng, n: usize, _tier: &str, out: &mut dyn Write) {
             }
             0 | 1 | 2 => writeln!(out, "acc17 {} {}", *r.pick(&ACCD), es).unwrap(),
             3 | 4 | 5 | 6 => writeln!(out, "accf {} {}", *r.pick(&ACCF), es).unwrap(),
+            7 if r.chance(1, 5) => {
+                // the UNIX seconds through the formatting trait {:p}, around 1970 (also the second before it) and anywhere
+                let v = match r.below(3) { 0 => r.range_i64(-3_000_000_000, 3_000_000_000) as i128, 1 => r.range_i64(-2_000_000_000, 2_000_000_000) as i128 * 1_000_000, _ => r.range_i64(-4_000_000_000, 4_000_000_000) as i128 * SEC + r.below(SEC as u64) as i128 };
+                writeln!(out, "fmt_ptr {}:UTC", dstr(2_208_988_800 * SEC + v)).unwrap()
+            }
             7 if r.chance(1, 3) => {
                 // the same constructors reached through the TEXT forms `MJD x SCALE` / `JD x SCALE` (Epoch::from_str) against
                 // the direct constructor: every magnitude, and values around zero incl. (-1, 0) (seeded change C17-10)
@@ -912,6 +917,14 @@ pub fn inputs_c12(r: &mut Rng, n: usize, _tier: &str, out: &mut dyn Write) {
         if k % 20 == 19 {
             // compare-after-arithmetic (seeded change C12-7: `epoch += Unit` leaving (c, one century of ns)): the result of
             // every stepping entry point against the freshly built epoch of the same parts, a neighbour, and its re-expression
+            if r.chance(1, 6) {
+                // constructors from a nanosecond counter of one century and more (seeded changes C05-8 / C12-10 left them
+                // un-normalised, which the field-wise == / cmp of epochs misread)
+                let how = *r.pick(&["from_ns_gpst", "from_ns_qzsst", "from_ns_gst", "from_ns_bdt"]);
+                let v: u64 = match r.below(4) { 0 => NPC as u64 + r.below(3), 1 => r.next().max(NPC as u64), 2 => NPC as u64 - 1 - r.below(3), _ => NPC as u64 + r.below(NPC as u64) };
+                writeln!(out, "ecmp_via {} 0:0:TAI {} {} {}", how, v, dstr(*r.pick(&[0i128, 0, 1, -1, 2])), *r.pick(&NONDYN)).unwrap();
+                continue;
+            }
             let ts = *r.pick(&NONDYN);
             let how = *r.pick(&["add", "sub", "addassign", "subassign", "addu", "subu", "addassign_u", "subassign_u"]);
             let kc = r.range_i64(-3, 3) as i128;
@@ -1652,6 +1665,12 @@ pub fn exec(op: &str, a: &[&str]) -> Option<String> {
             Some(format!("ok {} {}", f2s(f), d2s(d)))
         }
         "accf" => accf_call(a[0], &s2e(a[1])).map(|v| format!("ok {}", f2s(v))),
+        // `{:p}` prints the UNIX seconds: (the printed numeral read back as a double | nan, to_unix_seconds())
+        "fmt_ptr" => {
+            let e = s2e(a[0]);
+            let t = format!("{:p}", e);
+            Some(format!("ok {} {}", f2s(t.trim().parse::<f64>().unwrap_or(f64::NAN)), f2s(e.to_unix_seconds())))
+        }
         "jdtext" => {
             // (Epoch::from_str of the text form | err, the direct constructor on the same double)
             use core::str::FromStr;
@@ -1849,6 +1868,11 @@ pub fn exec(op: &str, a: &[&str]) -> Option<String> {
                 "subu" => e0 - s2u(a[2]),
                 "addassign_u" => { let mut e = e0; e += s2u(a[2]); e }
                 "subassign_u" => { let mut e = e0; e -= s2u(a[2]); e }
+                // constructors from a raw counter (a[2]): the epoch as the constructor leaves it
+                "from_ns_gpst" => Epoch::from_gpst_nanoseconds(a[2].parse().unwrap()),
+                "from_ns_qzsst" => Epoch::from_qzsst_nanoseconds(a[2].parse().unwrap()),
+                "from_ns_gst" => Epoch::from_gst_nanoseconds(a[2].parse().unwrap()),
+                "from_ns_bdt" => Epoch::from_bdt_nanoseconds(a[2].parse().unwrap()),
                 _ => return None,
             };
             let (c, ns) = x.duration.to_parts();
